@@ -112,6 +112,78 @@ def tokenizer(P, R):
     R.floor('C08.BND.1', 3, 'tokenizer stores into argv')
 
 
+def line_buffer_writes(P, R, rule='C08.WMC.2'):
+    """The server's line reaches the handlers as it was received: between reading a line and dispatching it, the
+    only bytes written into the line are the separators the tokenizer turns into terminators (a NUL stored through
+    the scan pointer, inside the tokenizer loop).  A trailing argument (after ':') is therefore never edited."""
+    fn = reader(P)
+    argc, argv, extent = find_vec(fn)
+    rl = [s for s in fn.calls('evbuffer_readln')]
+    if not rl:
+        raise AnalysisBroken('reader does not call evbuffer_readln')
+    cut = {rl[0].bid}
+    astores = [s for s in fn.stores() if s.ev['k'] == 'store' and (s.ev['lhs'] or {}).get('k') == 'idx' and is_var(s.ev['lhs']['base'], argv) and const_of(s.ev.get('rhs')) != 0]
+    tok = set()
+    for a in astores:
+        fw = fn.reach([a.bid], cut_blocks=cut)
+        for b in fw:
+            if a.bid in fn.reach([b], cut_blocks=cut):
+                tok.add(b)
+    n = 0
+    for s in fn.stores():
+        ev = s.ev
+        if ev['k'] != 'store':
+            continue
+        lhs = ev['lhs'] or {}
+        through = None
+        if lhs.get('k') == 'un' and lhs.get('op') == '*':
+            through = lhs['e']
+        elif lhs.get('k') == 'idx' and not isinstance(lhs['base'].get('arr'), int):
+            through = lhs['base']
+        if through is None:
+            continue
+        rv = root_var(through)
+        if rv is None or rv.get('sc') not in ('local', 'param') or rv.get('t', '').replace('const ', '') != 'char *':
+            continue
+        n += 1
+        ok = s.bid in tok and const_of(ev.get('rhs')) == 0 and ev.get('op') == '='
+        R.ob(rule, ok, s, 'the store %s = %s into the received line is a separator terminated by the tokenizer (inside its loop: %s, value: %s)' %
+             (sx(lhs), sx(ev.get('rhs')), s.bid in tok, sx(ev.get('rhs'))), key='line-write:%s' % ('tok' if ok else sx(lhs)))
+    R.floor(rule, 1, 'the tokenizer terminates its tokens in place')
+
+
+def drains_buffer(P, R, rule='C08.MPT.4'):
+    """Chunking independence, structural part: a wake-up handles every complete line that is buffered - the line
+    loop is only left when the line splitter has no further line (nothing re-arms the read event for leftovers,
+    and leftovers are dropped at end of input)."""
+    fn = reader(P)
+    rl = [s for s in fn.calls('evbuffer_readln')]
+    if not rl:
+        raise AnalysisBroken('reader does not call evbuffer_readln')
+    loop = {b for b in fn.reach([rl[0].bid]) if rl[0].bid in fn.reach([b])}
+    if not loop:
+        raise AnalysisBroken('the line splitter is not called in a loop')
+    n = 0
+    for b in sorted(loop):
+        for e in fn.out[b]:
+            if e.dst in loop or fn.blocks[e.dst].get('noreturn'):
+                continue
+            n += 1
+            r = e.rel()
+            ok = False
+            if r and r[1] == '==' and const_of(r[2]) == 0:
+                subj = r[0]
+                txt = sx(subj)
+                lv = None
+                for t in fn.stores():
+                    rhs = t.ev.get('rhs') or {}
+                    if t.ev['k'] == 'store' and rhs.get('k') == 'callref' and rhs.get('callee') == 'evbuffer_readln' and is_var(t.ev.get('lhs')):
+                        lv = t.ev['lhs']['name']
+                ok = 'evbuffer_readln' in txt or (lv is not None and is_var(subj, lv))
+            R.ob(rule, ok, fn, 'the line loop is left on %s: only "no further complete line" may end it' % e.describe(), key='loop-exit:%s' % ('readln' if ok else e.describe()))
+    R.floor(rule, 1)
+
+
 MIN_ARGC = {'C': 5, 'N': 2, 'P': 2, 'U': 3, 'n': 2, 'E': 3, 'M': 3, 'X': 4, 'x': 4, '?': 2}
 
 
@@ -433,9 +505,17 @@ def run(P, R, tier):
     uar.check(P, R, 'C08.UAR.1')
     junk_inert(P, R)
     terminator_and_arity(P, R)
+    line_buffer_writes(P, R)
+    drains_buffer(P, R)
     # a timer that outlives its request fires on freed memory: the timer lives exactly as long as the request
     from . import c10
     cl = c10.cleanup_fn(P, Remap(R, {'C10.MPT.1': 'C08.TMR.1', 'C10.WIRE.1': 'C08.TMR.1'}))
     c10.timer_lifecycle(P, Remap(R, {'C10.WMC.2': 'C08.TMR.1'}), cl)
     c10.table_sites(P, Remap(R, {'C10.WMC.1': 'C08.TMR.2'}))
+    # malformed replies are junk too: a reply naming no awaited service has no effect
+    from . import c04
+    R4 = Remap(R, {'C04.GRD.2': 'C08.GRD.2', 'C04.GRD.3': 'C08.GRD.2'})
+    cl4 = c04.lookup_discipline(P, R4)
+    c04.effects_guarded(P, R4, cl4)
+    c04.lookup_skips(P, R4, cl4)
     return EXPLANATION, ASSUMPTIONS
